@@ -650,3 +650,88 @@ def linear(body, op, depth=0):
         if a and b and b[0] == ("const",):
             return (a[0], a[1] + sign * b[1])
     return None
+
+
+# ---------------------------------------------------------------- loops
+
+def _sccs(body, nodes):
+    nodes = set(nodes)
+    index, low, on, st, out = {}, {}, set(), [], []
+    cnt = [0]
+    succ = lambda v: [x for x in body.succ(v) if x in nodes]
+    for root in sorted(nodes):
+        if root in index:
+            continue
+        work = [(root, iter(succ(root)))]
+        index[root] = low[root] = cnt[0]; cnt[0] += 1
+        st.append(root); on.add(root)
+        while work:
+            v, it = work[-1]
+            adv = False
+            for s in it:
+                if s not in index:
+                    index[s] = low[s] = cnt[0]; cnt[0] += 1
+                    st.append(s); on.add(s)
+                    work.append((s, iter(succ(s))))
+                    adv = True
+                    break
+                elif s in on:
+                    low[v] = min(low[v], index[s])
+            if adv:
+                continue
+            work.pop()
+            if work:
+                u = work[-1][0]
+                low[u] = min(low[u], low[v])
+            if low[v] == index[v]:
+                comp = set()
+                while True:
+                    x = st.pop(); on.discard(x); comp.add(x)
+                    if x == v:
+                        break
+                if len(comp) > 1 or v in body.succ(v):
+                    out.append(frozenset(comp))
+    return out
+
+
+def loops(body, nested=True):
+    """loops of the live normal-flow CFG as block sets: every strongly connected component with a cycle and, recursively, the
+    components that remain inside it once its entry blocks are removed (inner loops)"""
+    out = []
+    work = _sccs(body, body.live_blocks())
+    while work:
+        comp = work.pop()
+        out.append(comp)
+        if not nested:
+            continue
+        heads = {b for b in comp if b == 0 or any(p not in comp for p in body.pred(b))}
+        if heads and len(comp) > 1:
+            work.extend(_sccs(body, comp - heads))
+    return out
+
+
+def reaches_return(body, bb, _memo=None):
+    return any(body.term(x)["k"] == "return" for x in body.reachable(bb))
+
+
+def loop_exits(body, comp):
+    """exit edges (u, v) of a loop that can still reach a normal return (panic / unreachable exits are ignored)"""
+    out = []
+    for u in sorted(comp):
+        for v in body.succ(u):
+            if v not in comp and reaches_return(body, v):
+                out.append((u, v))
+    return out
+
+
+def is_exhaustion_exit(body, u):
+    """is block u the `match iter.next() { None => break, .. }` test of a for loop, or the `i < len` test of a counted loop"""
+    t = body.term(u)
+    if t["k"] != "switch":
+        return False
+    o = origin(body, t["d"])
+    if o["k"] == "discr":
+        src = origin(body, {"c": o["p"]}) if not o["p"].get("p") else None
+        if src and src["k"] == "call" and re.search(r"Iterator::next$|::next$|::next_back$|::pop_front$|::pop$|::pop_back$", src["t"].get("f", "")):
+            return True
+    return False
